@@ -11,6 +11,8 @@ import SwcVerif.Props.C05
 #print axioms Dsu.jumpLoop_forest
 #print axioms C18.getDsu_forest
 #print axioms C18.forest_single_label_iff
+#print axioms Dsu.jumpLoop_conn
+#print axioms C18.getDsu_labels_are_components
 #print axioms C18.repair_somas
 #print axioms C18.repair_nearest_partial
 #print axioms C05.isSorted_iff
